@@ -113,6 +113,7 @@ def extract(features="", repo=None, target_dir=None, verbose=False):
         m = json.load(open(os.path.join(tmp, "meta.json")))
         if m.get("tree_hash") != th:
             raise SystemExit("fact extraction: stale fact file")
+        _derive(tmp)
         shutil.rmtree(out, ignore_errors=True)
         os.rename(tmp, out)
         if verbose:
@@ -122,6 +123,45 @@ def extract(features="", repo=None, target_dir=None, verbose=False):
     finally:
         fcntl.flock(lock, fcntl.LOCK_UN)
         lock.close()
+
+
+def _derive(d):
+    """Derived, compact index of call edges per MIR body (so that rules need not parse every body)."""
+    out = {}
+    with open(os.path.join(d, "mir.jsonl")) as fh:
+        for line in fh:
+            b = json.loads(line)
+            calls, closures, fnptrs = [], [], []
+
+            def ops_of(rv):
+                for kk in ("op", "a", "b"):
+                    if isinstance(rv.get(kk), dict):
+                        yield rv[kk]
+                for o in rv.get("ops", ()) or ():
+                    yield o
+
+            def fnptr(o):
+                c = o.get("k")
+                if c and "fn" in c:
+                    fnptrs.append([c["fn"], c.get("r")])
+
+            for blk in b["blocks"]:
+                for s in blk["s"]:
+                    rv = s.get("rv")
+                    if not rv:
+                        continue
+                    if rv["k"] == "Aggregate" and "closure" in rv:
+                        closures.append(rv["closure"])
+                    for o in ops_of(rv):
+                        fnptr(o)
+                t = blk["t"]
+                if t["k"] == "Call":
+                    for a in t["args"]:
+                        fnptr(a)
+                    calls.append([t.get("f"), t.get("r"), bool(t.get("virtual"))])
+            out[b["def"]] = {"calls": calls, "closures": closures, "fnptrs": fnptrs}
+    with open(os.path.join(d, "calls.json"), "w") as fh:
+        json.dump(out, fh)
 
 
 def _prune(keep=12):
